@@ -39,7 +39,28 @@ def load_known():
 OUT = [os.path.join(ROOT, "evidence")]
 
 
-def stage1(pid, repo, tier, plan):
+def load_assumed_sources():
+    p = os.path.join(ROOT, "baseline", "assumed_sources.json")
+    if os.path.exists(p):
+        with open(p) as f:
+            return json.load(f)
+    return {}
+
+
+def assumed_source_hash(repo, mod, qualname):
+    """hash of the function's AST without its docstring (comments and
+    formatting do not matter)"""
+    import ast
+    import hashlib
+    from . import source as S
+    node, _, _ = S.get_function(repo, mod, qualname)
+    body = S.strip_docstring(node.body)
+    txt = ast.dump(node.args) + "|" + "|".join(ast.dump(b) for b in body) + \
+        "|" + "|".join(ast.dump(d) for d in node.decorator_list)
+    return hashlib.sha256(txt.encode()).hexdigest()[:16]
+
+
+def stage1(pid, repo, tier, plan, update=False):
     from .contracts import Registry
     from . import solve, run
     reg = Registry().load_dir(os.path.join(ROOT, "contracts"))
@@ -51,6 +72,32 @@ def stage1(pid, repo, tier, plan):
     keys = run.select_keys(reg, pid=pid)
     infos, allobs = run.generate(repo, keys)
     undecided = []
+    # in-repo functions whose contract is ASSUMED (audited by the bounded
+    # stage only): the assumption was justified for one source text; when that
+    # text changes the contract is no longer backed -> undecided
+    base = load_assumed_sources()
+    cur = {}
+    for f in funcs:
+        key = f["function"]
+        mod, qn = key.split(":", 1)
+        if not mod.startswith("sedpack/") or "_sedpack_rs" in mod:
+            continue
+        try:
+            h = assumed_source_hash(repo, mod, qn)
+        except Exception as e:  # noqa: BLE001
+            h = "missing: " + str(e)[:80]
+        cur[key] = h
+        f["source_hash"] = h
+        if key in base and base[key] != h and not update:
+            undecided.append((key, "the source of this function, whose "
+                              "contract is assumed (audited, bounded), "
+                              "changed since the audit: contract no longer "
+                              "backed"))
+    if update:
+        base.update(cur)
+        with open(os.path.join(ROOT, "baseline", "assumed_sources.json"),
+                  "w") as f:
+            json.dump(base, f, indent=0, sort_keys=True)
     used = set()
     for i in infos:
         i["assumed"] = False
@@ -154,7 +201,7 @@ def main(argv=None):
         if a.replay:
             return replay(pid, a, seed, known)
         reg, eng, funcs, obs, undecided, solver_wall = stage1(
-            pid, a.repo, a.tier, plan)
+            pid, a.repo, a.tier, plan, update=a.update_baseline)
     except Exception:  # noqa: BLE001
         traceback.print_exc()
         return 3
@@ -169,9 +216,17 @@ def main(argv=None):
         old_t = solve.Z3_TIMEOUT_MS, solve.CVC5_TIMEOUT_MS
         solve.Z3_TIMEOUT_MS, solve.CVC5_TIMEOUT_MS = old_t[0] * 4, old_t[1] * 4
         try:
-            solve.discharge_text(retry, procs=min(8, len(retry)))
+            # (solver heuristics are sensitive to irrelevant details of a
+            # query: an obligation any seed proves is proved)
+            for seed_ in (0, 7, 23):
+                solve.Z3_SEED = seed_
+                retry = [o for o in retry if o.status not in ("sat", "unsat")]
+                if not retry:
+                    break
+                solve.discharge_text(retry, procs=min(8, len(retry)))
         finally:
             solve.Z3_TIMEOUT_MS, solve.CVC5_TIMEOUT_MS = old_t
+            solve.Z3_SEED = 0
     baseline = load_baseline().get(pid, {})
     if a.update_baseline:
         keys = {}
@@ -246,6 +301,29 @@ def main(argv=None):
         conc = run_concrete(pid, a.repo, a.tier, seed, cexfile)
     cres = conc.get("results", [])
     cfail = [r for r in cres if not r.get("ok")]
+    # the tree-summation lemma (local exactness => global exactness) is
+    # machine-checked by Lean on every run
+    lemma_fail = None
+    if "A-LEMMA-TREE" in (P.get("assumptions") or []):
+        lp = os.path.join(ROOT, "lemmas", "TreeExact.lean")
+        try:
+            txt = open(lp).read()
+            pr = subprocess.run(["lean", lp], capture_output=True, text=True,
+                                timeout=600)
+            bad = pr.returncode != 0 or "error" in (pr.stdout + pr.stderr) \
+                or "sorry" in txt or "\naxiom " in txt
+            lr = {"check": "Lean 4 accepts lemmas/TreeExact.lean (no sorry, "
+                           "no axiom): recorded total = actual total for "
+                           "every locally exact finite tree",
+                  "ok": not bad, "evaluations": 1, "bound": "unbounded "
+                  "(machine-checked proof by structural induction)",
+                  "witness": None if not bad else (pr.stdout + pr.stderr)[-400:]}
+        except Exception as e:  # noqa: BLE001
+            lr = {"check": "Lean lemma TreeExact", "ok": False,
+                  "evaluations": 1, "witness": repr(e)[:300]}
+        cres = cres + [lr]
+        if not lr["ok"]:
+            lemma_fail = lr
     # audit of the assumed path theory against pathlib (every run; a failure
     # voids the proofs that use the theory: checker error, not a violation)
     theory_fail = None
@@ -326,6 +404,9 @@ def main(argv=None):
         err_msgs.append("CHECKER-ERROR zero obligations generated")
     if conc.get("error"):
         err_msgs.append(f"CHECKER-ERROR {conc['error']}")
+    if lemma_fail:
+        err_msgs.append("CHECKER-ERROR Lean lemma not accepted: "
+                        + str(lemma_fail.get("witness"))[:300])
     if theory_fail:
         err_msgs.append("CHECKER-ERROR path theory axiom refuted by pathlib: "
                         + str(theory_fail.get("witness"))[:400])
